@@ -254,6 +254,9 @@ def traj_scenario(c, k):
     if c["it0"]:
         L.append("setstep %d" % c["it0"])
     L += conf() + ["show atomf 0 cv 0 bias 0 energy 0"]
+    for v in c["vars"]:
+        if v["type"] == "z" and c.get("eforce"):
+            L.append("eforce %d 0 0 %s" % (2 * v["id"] + 1, hx(c["eforce"][v["id"]])))
     for ev in c["events"]:
         if ev[0] == "step":
             for vid, x in ev[1].items():
@@ -393,9 +396,68 @@ def fixed_centres_oracle(run, c, lab, fields, step, replay):
         want = 1.5 if b["kind"] == "alb" else b["c"][b["vars"].index(v["id"])]
         want = [float(q) for q in want] if isinstance(want, (list, tuple)) else float(want)
         got = fields[lab.index(nm)]
+        run.dist("oracle:centre")
         if not close(got, want, OTOL):
             run.violation("trajfields:centre" + (":alb" if b["kind"] == "alb" else ""),
                           "step %d column %s holds %r, the centre of bias b%d is %r" % (step, nm, got, b["id"], want), replay)
+
+
+def live_biases(c, j):
+    """the biases defined when calc j runs"""
+    live = [dict(b) for b in c["biases"]]
+    n = 0
+    for ev in c["events"]:
+        if ev[0] == "step":
+            if n == j:
+                break
+            n += 1
+        elif ev[0] == "addbias":
+            live.append(dict(ev[1]))
+        elif ev[0] == "delbias":
+            live = [b for b in live if b["id"] != ev[1]]
+    return live
+
+
+def sq(a, b):
+    if isinstance(a, (list, tuple)):
+        return sum((Fr(x) - Fr(y)) ** 2 for x, y in zip(a, b))
+    return (Fr(a) - Fr(b)) ** 2
+
+
+def forces_energy_oracle(run, c, j, pos, lab, fields, step, replay):
+    """textbook values of the columns ft_ (the engine's force on the variable), fa_ (sum of the restraint forces)
+    and E_ (harmonic energy) where python can compute them: fixed-centre, fixed-k harmonic restraints"""
+    live = live_biases(c, j)
+    simple = lambda b: b["kind"] == "harmonic" and not b.get("chgc") and not b.get("chgk")
+    for v in c["vars"]:
+        if v["type"] != "z" or v.get("extlag") or v["id"] not in pos:
+            continue
+        nm = "v%d" % v["id"]
+        if "ft_" + nm in lab and c.get("eforce") and lab.count("ft_" + nm) == 1:
+            got = fields[lab.index("ft_" + nm)]
+            want = float(c["eforce"][v["id"]])
+            run.dist("oracle:total-force")
+            if not close(got, want, OTOL):
+                run.violation("trajfields:total-force", "step %d column ft_%s holds %r, the engine's force on the variable is %r"
+                              % (step, nm, got, want), replay)
+        mine = [b for b in live if v["id"] in b["vars"]]
+        if "fa_" + nm in lab and lab.count("fa_" + nm) == 1 and all(simple(b) for b in mine):
+            want = Fr(0)
+            for b in mine:
+                want += -Fr(b["k"]) * (Fr(pos[v["id"]]) - Fr(b["c"][b["vars"].index(v["id"])]))
+            got = fields[lab.index("fa_" + nm)]
+            run.dist("oracle:applied-force")
+            if not close(got, float(want), OTOL):
+                run.violation("trajfields:applied-force", "step %d column fa_%s holds %r, the restraints apply %r" % (step, nm, got, float(want)), replay)
+    for b in live:
+        nm = "E_b%d" % b["id"]
+        if simple(b) and b.get("energy") and lab.count(nm) == 1 and all(i in pos for i in b["vars"]) \
+                and not any([vv for vv in c["vars"] if vv["id"] == i][0].get("extlag") for i in b["vars"]):
+            want = Fr(b["k"]) / 2 * sum(sq(pos[i], b["c"][n]) for n, i in enumerate(b["vars"]))
+            got = fields[lab.index(nm)]
+            run.dist("oracle:bias-energy")
+            if not close(got, float(want), OTOL):
+                run.violation("trajfields:bias-energy", "step %d column %s holds %r, k/2 |x - c|^2 = %r" % (step, nm, got, float(want)), replay)
 
 
 def label_text(name, biasvars):
@@ -483,12 +545,14 @@ def check_traj_case(run, c, k, impl_lines, scratch, model):
                 continue
             j = js[n]
             fixed_centres_oracle(run, c, lab, l[2], l[1], replay)
+            forces_energy_oracle(run, c, j, poshist[j], lab, l[2], l[1], replay)
             for v in c["vars"]:
                 nm = "v%d" % v["id"]
                 if nm in lab and v["id"] in poshist[j]:
                     got = l[2][lab.index(nm)]
                     want = poshist[j][v["id"]]
                     want = [float(q) for q in want] if isinstance(want, (list, tuple)) else float(want)
+                    run.dist("oracle:value")
                     if not close(got, want, OTOL):
                         run.violation("trajfields:value", "step %d column %s holds %r, the variable's value at that step is %r" % (l[1], nm, got, want), replay)
                 vn = "v_" + nm
@@ -498,6 +562,7 @@ def check_traj_case(run, c, k, impl_lines, scratch, model):
                         and v["id"] in poshist[j] and v["id"] in poshist[jp[-1]] and velocity_on_since(c, v["id"], jp[-1], j):
                     want = float((Fr(poshist[j][v["id"]]) - Fr(poshist[jp[-1]][v["id"]])) / Fr(c["dt"]))
                     got = l[2][lab.index(vn)]
+                    run.dist("oracle:velocity")
                     if not close(got, want, OTOL):
                         run.violation("trajfields:velocity", "step %d column %s holds %r, (x(t)-x(t-1))/dt = %r" % (l[1], vn, got, want), replay)
         # ---------------- tie with the model
@@ -672,7 +737,8 @@ def gen_traj_case(r, tier):
             events.append(["step", events[[i for i, e in enumerate(events) if e[0] == "step"][-1]][1]])
             continue
         events.append(["step", newpos()])
-    return {"kind": "traj", "freq": freq, "it0": it0, "dt": dt, "vars": vars_, "biases": biases, "events": events}
+    eforce = [r.choice([-1, 1]) * V.dyadic(r, 0.5, 3, 2) for _ in vars_]
+    return {"kind": "traj", "freq": freq, "it0": it0, "dt": dt, "vars": vars_, "biases": biases, "events": events, "eforce": eforce}
 
 
 # ------------------------------------------------------------------ running average cases
@@ -775,6 +841,7 @@ def check_runave_case(run, c, k, impl_lines, scratch, model):
                               % (step, t, c["L"], c["stride"]), replay)
                 continue
             m, var = orc[t]
+            run.dist("oracle:runave-line")
             if not close(vals[0], float(m), OTOL):
                 win = [float(xs[t - j * c["stride"]]) for j in range(c["L"])]
                 run.violation("runave:mean", "step %d: running average %r, mean of the last %d samples %s is %r"
@@ -985,6 +1052,7 @@ def check_acf_case(run, c, k, impl_lines, scratch, model):
             run.violation(sig + ":rows", "%d rows written, %d lags documented (lag 0 and corrFuncLength lags)" % (len(irows), len(orows)), replay)
         else:
             for (la, va), (lb, vb) in zip(irows, orows):
+                run.dist("oracle:acf-row")
                 if la != lb:
                     run.violation(sig + ":lag", "row labelled with lag %d holds the value accumulated for lag %d" % (la, lb), replay)
                     break
@@ -1129,11 +1197,11 @@ def check(run):
                     if l and not l.startswith("#"):
                         cases.append(json.loads(l))
     mult = 1 if run.tier == "quick" else 12
-    for _ in range(70 * mult):
+    for _ in range(140 * mult):
         cases.append(gen_traj_case(r, run.tier))
-    for _ in range(60 * mult):
+    for _ in range(100 * mult):
         cases.append(gen_runave_case(r, run.tier))
-    for _ in range(60 * mult):
+    for _ in range(100 * mult):
         cases.append(gen_acf_case(r, run.tier))
     total = run_cases(run, cases, unit, model, scratch)
     run.cov["rule"] = ("a case is one scenario (trajectory / running average / correlation function) driven through the engine "
